@@ -83,12 +83,28 @@ def seed_xrefstream():
 
 
 def seed_incremental():
+    """three revisions: classic table, classic table (Prev), hybrid (Prev + XRefStm, object stream)"""
     r1 = basic({5: Stream({}, text("Old text")), 6: {"Producer": b"verif"}})
-    r2 = {3: {"Type": N("Page"), "Parent": Ref(2), "MediaBox": list(MB), "Resources": Ref(7), "Contents": Ref(5)},
+    r2 = {5: Stream({}, text("Mid text")), 6: {"Producer": b"verif 2"}}
+    r3 = {3: {"Type": N("Page"), "Parent": Ref(2), "MediaBox": list(MB), "Resources": Ref(7), "Contents": Ref(5)},
           5: Stream({}, text("New text")),
           7: {"Font": {"F1": Ref(4)}}}
-    return SeedDoc("incremental", [Rev(r1), Rev(r2, form="hybrid", packed=[3, 7])], info=Ref(6),
-                   expect=["New text"], features=["incremental update", "Prev chain", "hybrid XRefStm"])
+    return SeedDoc("incremental", [Rev(r1), Rev(r2), Rev(r3, form="hybrid", packed=[3, 7])], info=Ref(6),
+                   expect=["New text"], features=["incremental updates", "Prev chain of classic tables", "hybrid XRefStm"])
+
+
+def seed_incremental_stream():
+    """three revisions, each with a cross-reference stream (Prev inside the stream dictionary); the last one packs
+    the objects it rewrites into an object stream"""
+    r1 = basic({5: Stream({"Filter": N("FlateDecode")}, zlib.compress(text("First text"))), 6: {"Producer": b"verif"}})
+    r2 = {5: Stream({}, text("Second text"))}
+    r3 = {3: {"Type": N("Page"), "Parent": Ref(2), "MediaBox": list(MB), "Resources": Ref(12), "Contents": Ref(5)},
+          5: Stream({}, text("Third text")),
+          12: {"Font": {"F1": Ref(4)}}}
+    return SeedDoc("incremental_stream",
+                   [Rev(r1, form="stream", packed=[1, 2, 3, 4]), Rev(r2, form="stream"),
+                    Rev(r3, form="stream", packed=[3, 12])], info=Ref(6),
+                   expect=["Third text"], features=["incremental updates with cross-reference streams", "Prev chain of streams"])
 
 
 def seed_ascii_filters():
@@ -318,7 +334,7 @@ def seed_enc_aes256():
     return _encrypted("enc_aes256", 5, 6, 256, "AESV3")
 
 
-BUILDERS = [seed_classic, seed_xrefstream, seed_incremental, seed_ascii_filters, seed_lzw_rl, seed_predictors,
+BUILDERS = [seed_classic, seed_xrefstream, seed_incremental, seed_incremental_stream, seed_ascii_filters, seed_lzw_rl, seed_predictors,
             seed_simple_fonts, seed_type0, seed_pagelabels, seed_xobjects, seed_enc_rc4, seed_enc_aes128, seed_enc_aes256]
 
 
